@@ -2,7 +2,7 @@
 (* Relation-only trace specification for rewrite walks (C05, C06).  An event is one walk:
    [ver, minor, ops, strings, out: [obs : sequence of observations, eq0, eq0r, hash0]] where
    strings[k] was given to the real constructor and obs[k] is everything observable about the
-   result; eq0[k] = (obj1 == objk), eq0r[k] = (objk == obj1), hash0[k] = (hash equal).
+   result; eq0[k] = (obj1 == objk), eq0r[k] = (objk == obj1), ne0 / ne0r the same with !=, in0[k] = (objk in {obj1}), hash0[k] = (hash equal).
    TLC re-parses every string, checks that consecutive strings are related by the rewrite the
    step names (so neither the generator nor the replayer is trusted), and demands exactly the
    equalities the property states.  No score oracle is consulted.                            *)
@@ -52,7 +52,7 @@ WalkVerdict(e) ==
        \* C05: a maximal prefix of C05 steps keeps every observable of the first state
        pre == {k \in 2..n : \A j \in 2..k : j \in c05}
        obsDiff == {k \in pre : AllObs(O[k]) # AllObs(O[1])}
-       eqDiff == {k \in pre : ~e.out.eq0[k] \/ ~e.out.eq0r[k]}
+       eqDiff == {k \in pre : ~e.out.eq0[k] \/ ~e.out.eq0r[k] \/ e.out.ne0[k] \/ e.out.ne0r[k] \/ ~e.out.in0[k]}      \* ==, != (both ways round), set membership
        hashDiff == {k \in pre : ~e.out.hash0[k]}
        scoreDiff == {k \in 2..n : \E s \in Kept(e.ver, e.ops[k], O[k-1].scores) : s <= Len(O[k].scores) /\ O[k].scores[s] # O[k-1].scores[s]}
        First(S) == CHOOSE x \in S : \A y \in S : x <= y
